@@ -208,7 +208,7 @@ theorem bracket_of_estOK {F p eb} (lay : Layout F p eb) (fp : ExtendedFloat80) (
     (h : EstOK F p fp num den) :
     extendedToFloat F (round F { fp with exp := fp.exp - invalidFp } roundDown) ≤ roundNE F.fmt num den ∧
       roundNE F.fmt num den ≤ extendedToFloat F (round F { fp with exp := fp.exp - invalidFp } roundDown) + 1 := by
-  obtain ⟨hm1, hm2, hlo, hhi⟩ := h
+  obtain ⟨hm1, hm2, _, _, hlo, hhi⟩ := h
   by_cases hp2 : -(fp.exp - invalidFp) + 1 ≤ 64
   · exact bracket_of_estimate lay { fp with exp := fp.exp - invalidFp } hm1 hm2 hp2 num den hd hlo hhi
   · obtain ⟨e1, e2⟩ := bracket_deep lay { fp with exp := fp.exp - invalidFp } hm2 hp2 num den hd hhi
